@@ -526,6 +526,27 @@ class Interp:
                     self.explore(q, fn, frame, target, cont)
             return None
 
+        # --- a closure called through the Fn traits (e.g. a helper taking `f: impl FnOnce(&mut Vec<C>)`)
+        if path in ('core::ops::FnOnce::call_once', 'core::ops::FnMut::call_mut', 'core::ops::Fn::call') and len(args) == 2:
+            clo = args[0]
+            if clo[0] == 'ref':
+                clo = p.env.get((clo[1], clo[2]), clo)
+            if clo[0] == 'closure' and clo[1] in self.prog.fns and args[1][0] == 'tuple':
+                cfn = self.prog.fns[clo[1]]
+                p.frame_ctr += 1
+                nf = p.frame_ctr + 1000 * (frame + 1)
+                p.env[(nf, 1)] = clo
+                for i_, v_ in enumerate(args[1][1]):
+                    p.env[(nf, 2 + i_)] = v_
+
+                def k(q2, rv, fn=fn, frame=frame, dest=dest, target=target, cont=cont, ln=ln, b=b):
+                    if dest is not None:
+                        self.assign(q2, fn, frame, dest, rv, {'ln': ln}, b)
+                    if target is not None:
+                        self.explore(q2, fn, frame, target, cont)
+                self.explore(p, cfn, nf, 0, k)
+                return None
+
         # --- column slices
         if name in ('get_unchecked', 'get_unchecked_mut', 'get', 'get_mut', 'index', 'index_mut') and len(args) == 2:
             base = self.deref_arg(p, args[0])
